@@ -5,3 +5,5 @@ import McpModel.EventStore.Props
 import McpModel.Conn.Props
 import McpModel.Bearer.Props
 import McpModel.KeepAlive.Props
+import McpModel.OAuth.Props
+import McpModel.OAuth.Challenge
